@@ -304,7 +304,36 @@ def c03_epoch_cmp(ctx):
         ctx.fail(o, "(program)", "expected >= 4 equality tests on Timestamp in the engine (fast path, double check, marker x2), found %d" % n)
 
 
+def c03j(ctx):
+    """A callee that is unchanged in VALUE never forces its caller to run again, whatever happened to the set of firewalls
+    below it (that only asks for the caller's own set to be patched).  In the repair decision, `Recompute` must not be
+    reachable from a callee answer other than CalleeCheckDecision::Recompute within the same iteration."""
+    prog = ctx.prog
+    o = ctx.ob("C03.j", "recompute_decision/only-a-changed-value-forces-re-execution", "K4",
+               "in recompute_decision_based_on_forward_edges no RepairDecision::Recompute is reachable from the Cleaned / NoNeed answer of a callee before the next callee is taken")
+    b = ctx.touch(prog.coroutine_of("Snapshot::recompute_decision_based_on_forward_edges"))
+    rec = b.aggregates(r"repair::RepairDecision$", "Recompute")
+    heads = [s_.bb for s_ in b.calls_to(r"Iterator::next$")] + [s_.bb for s_ in b.calls_to(r"JoinSet::<T>::join_next$")]
+    edges = [(sb, tb, v) for sb, tb, v, c in df.variant_edges(b, "repair::CalleeCheckDecision") if v != "otherwise"]
+    adt = next((k for k in prog.adts if k.endswith("repair::CalleeCheckDecision")), None)
+    names = [x["name"] for x in prog.adts[adt]["variants"]] if adt else []
+    o.sites = len(edges)
+    if not rec or not edges or not names:
+        ctx.fail(o, Site(b, 0, 0), "anchor missing: the match on CalleeCheckDecision / the Recompute exits")
+        return
+    for sb, tb, v in edges:
+        nm = names[int(v)] if int(v) < len(names) else str(v)
+        if nm == "Recompute":
+            continue
+        r = b.reachable([tb], removed_nodes=heads + [sb])
+        for a in rec:
+            if a.bb in r:
+                ctx.fail(o, a, "the caller is re-executed after a callee answered %s (its value is unchanged): a changed firewall set below a callee must only patch the "
+                         "caller's own set, not run its executor" % nm)
+
+
 def run(ctx):
+    ctx.run_clause("C03.j", c03j)
     ctx.run_clause("C03.f", c03_marker)
     ctx.run_clause("C03.g", c03_epoch_cmp)
     ctx.run_clause("C03.a", c03_inputs)
